@@ -632,6 +632,12 @@ void bloom_filter_alloc<A>::internal_update(uint64_t h0, uint64_t h1) {
     bit_array_ops::set_bit(bit_array_, hash_index);
   }
   is_dirty_ = true;
+  if (memory_ != nullptr) {
+    // the stored bit count is stale now: mark it dirty in the wrapped memory, too,
+    // so that a later wrap or deserialize of this memory recounts
+    const uint64_t dirty_bits_value = DIRTY_BITS_VALUE;
+    copy_to_mem(dirty_bits_value, memory_ + NUM_BITS_SET_OFFSET_BYTES);
+  }
 }
 
 // QUERY-AND-UPDATE METHODS
